@@ -277,6 +277,7 @@ type situation struct {
 	noK         bool   // not sent to the model (the situation is outside the guard's model)
 	finding     string // suffix of the class when this situation is one of the reported classes
 	thorough    bool
+	sixth       bool // quick tier: only for a sixth of the rows (rotating with the seed)
 }
 
 type caseCtx struct {
@@ -308,9 +309,25 @@ func fileSituations(outName string, optional bool) []situation {
 			prep: func(d string, c *caseCtx) error { return writeExisting(d, outName) }}),
 		// output equal to the input: named and existing
 		mk(situation{name: "same-as-input", outFile: "in.pdf", mFile: nNamed, msFile: sRegFile, mustRefuse: true, noK: true}),
-		mk(situation{name: "is-directory", outFile: outName, mFile: nNamed, msFile: sEmptyDir, mustRefuse: true,
+		mk(situation{name: "is-directory", outFile: outName, mFile: nNamed, msFile: sEmptyDir, mustRefuse: true, sixth: true,
 			prep: func(d string, c *caseCtx) error { return os.Mkdir(filepath.Join(d, outName), 0o755) }}),
-		mk(situation{name: "stat-error", outFile: "in.pdf/" + outName, mFile: nNamed, msFile: sStatErr}),
+		mk(situation{name: "stat-error", outFile: "in.pdf/" + outName, mFile: nNamed, msFile: sStatErr, sixth: true}),
+		// the output lives in a sub-directory (catches guards looking at some other path than the one written)
+		mk(situation{name: "exists-in-subdir", outFile: "sub/" + outName, mFile: nNamed, msFile: sRegFile, mustRefuse: true,
+			prep: func(d string, c *caseCtx) error {
+				if err := os.Mkdir(filepath.Join(d, "sub"), 0o755); err != nil {
+					return err
+				}
+				return writeExisting(d, "sub/"+outName)
+			}}),
+		// ... absent there, while a file of the same base name exists in the working directory
+		mk(situation{name: "absent-in-subdir-decoy", outFile: "sub/" + outName, mFile: nNamed, msFile: sAbsent, mustProceed: true, sixth: true,
+			prep: func(d string, c *caseCtx) error {
+				if err := os.Mkdir(filepath.Join(d, "sub"), 0o755); err != nil {
+					return err
+				}
+				return writeExisting(d, outName)
+			}}),
 		mk(situation{name: "absent-force", force: true, outFile: outName, mFile: nNamed, msFile: sAbsent, mustProceed: true, thorough: true}),
 	}
 	if optional {
@@ -700,11 +717,11 @@ func main() {
 			if s.thorough && !r.Thorough() {
 				continue
 			}
-			if !r.Thorough() && (s.name == "is-directory" || s.name == "stat-error") && (int64(rw.ID)+r.Seed)%6 != 0 {
+			if !r.Thorough() && s.sixth && (int64(rw.ID)+r.Seed)%6 != 0 {
 				// branches inside the shared guard function: a sixth of the rows per seed in the quick tier
 				continue
 			}
-			if len(rw.Guards) == 0 && (s.name == "is-directory" || s.name == "stat-error" || s.name == "same-as-input" || s.name == "dir-is-file") {
+			if len(rw.Guards) == 0 && (s.name == "is-directory" || s.name == "stat-error" || s.name == "same-as-input" || s.name == "dir-is-file" || s.name == "exists-in-subdir" || s.name == "absent-in-subdir-decoy") {
 				// the handler reaches no guard: what happens with an unusable output path is the operation's business
 				continue
 			}
